@@ -37,7 +37,7 @@ def readable(lines):
     return out
 
 
-def run_serve_suite(R, ctx, name, nsess, what, parallel=0, stalls=(), parallel_select=0, select_sweep=(), **genargs):
+def run_serve_suite(R, ctx, name, nsess, what, parallel=0, stalls=(), parallel_select=0, select_sweep=(), extra_lines=None, **genargs):
     R.rule = ("sessions: 1-4 connections (net.Pipe) against one server.Manager.Handle; each step writes a pipeline of 1-5 commands (string/key "
               "commands, SELECT with valid and invalid arguments, SUBSCRIBE, PUBLISH with binary payloads, values that are not commands, "
               "protocol damage) followed by a sentinel PING, and collects every byte the server wrote; drains collect Pub/Sub pushes; some "
@@ -51,7 +51,7 @@ def run_serve_suite(R, ctx, name, nsess, what, parallel=0, stalls=(), parallel_s
         return
     rng = random.Random(R.seed * 15485863 + sum(map(ord, name)))
     n = nsess[0] if R.tier == "quick" else nsess[1]
-    lines = list(core.corpus("serve_" + name))
+    lines = list(core.corpus("serve_" + name)) + list(extra_lines or [])
     for _ in range(n):
         lines += servegen.session(rng, **genargs)
     for _ in range(parallel if R.tier == "quick" else parallel * 8):
